@@ -364,10 +364,19 @@ func genC04(o *Out, rng *rand.Rand, tier string) {
 		out, _ := dec4(in)
 		o.Emit(map[string]any{"op": "Dec4a", "area": B(area), "out": out}, cls, in, len(area) > 0)
 	}
+	var accepted [][]byte
 	emit := func(in []byte, cls string) {
-		out, _ := dec4(in)
+		out, p := dec4(in)
 		o.Emit(map[string]any{"op": "Dec4", "in": B(in), "out": out}, cls, in, len(in) >= 236)
+		if p != nil && len(accepted) < 3000 {
+			accepted = append(accepted, append([]byte(nil), in...))
+		}
 	}
+	defer func() {
+		concurrentDecodes(accepted, func(in []byte) any { out, _ := dec4(in); return out }, func(in []byte, out any) {
+			o.Emit(map[string]any{"op": "Dec4", "in": B(in), "out": out}, "concurrent-decoders", append([]byte("cc"), in...), true)
+		})
+	}()
 	// (a) exhaustive small scope: every options area over the structural alphabet
 	alpha := []byte{0, 1, 2, 3, 82, 255}
 	var rec func(cur []byte)
